@@ -309,6 +309,18 @@ class Serializable(eqx.Module):
         Returns:
             The deserialized model.
         """
-        return eqx.tree_deserialise_leaves(
-            path, eqx.filter_eval_shape(cls, *args, **kwargs)
-        )
+        like = eqx.filter_eval_shape(cls, *args, **kwargs)
+
+        path = Path(path)
+        if path.suffix == "":
+            path = path.with_suffix(".eqx")
+
+        with open(path, "rb") as file:
+            model = eqx.tree_deserialise_leaves(file, like)
+            # Equinox reads one leaf after another and ignores left-over data
+            if file.read(1):
+                raise ValueError(
+                    f"{path} holds more parameters than the model it is loaded into."
+                )
+
+        return model
